@@ -6,6 +6,7 @@ import sys
 import threading
 import time
 
+import c20_api as API
 import c20_domain
 import c20_preempt as PRE
 import c20_run as R
@@ -27,7 +28,10 @@ THEOREMS = [
     'Pfst.C20.interleave', 'Pfst.C20.interleave_exec', 'Pfst.C20.stepVis_is_schedule',
     'Pfst.C20.real_tables_wf', 'Pfst.C20.real_set_invalid', 'Pfst.C20.real_block_restores_all',
 ]
-RULE = ('(0) deterministic preemption inside calls: two threads edit their own copy() of one module with a non-ASCII '
+RULE = ('(00) API surface: every public FST/FSTView entry point taking **options (54 call shapes: append, prepend, extend, '
+        'prextend, insert, put, put_slice, get, get_slice, copy, cut, remove, replace, as_, put_docstr, sub, subn; node, '
+        'view, statement, element, optional field, Set) x every global option x its accepted non-default values: the '
+        'option passed to the call under library defaults must equal the bare call inside with options(k=v); (0) deterministic preemption inside calls: two threads edit their own copy() of one module with a non-ASCII '
         'line; thread A is parked at every line event of every method executing on a shared line object, B runs its whole '
         'script or is itself parked at sampled points; each result compared with the same script alone; (a) check_options on random 1-4 key mappings over the probe domain (23 names x 50 values incl. mutable list '
         'values for `op`, both all=True and '
@@ -651,6 +655,67 @@ def _thread_default_sweep(ctx, full):
     ctx.notes['thread_default_comparisons'] = n
 
 
+# ---- the whole public API surface: option passed to the call == the same option as thread/block default -------------
+
+def _api_case(arg):
+    name, v = arg
+    d = R.dom()
+    F = d.FST
+    val = lambda: (list(d.values[v]) if isinstance(d.values[v], list) else d.values[v])
+    bad = []
+    try:
+        E = API.entries(F)
+        for en, f in E:
+            R.reset_options()
+            a = f({name: val()})
+            with F.options(**{name: val()}):
+                b = f({})
+            same_snap = R.at_defaults()
+            if a != b:
+                bad.append([en, a, b])
+            if not same_snap:
+                bad.append([en, 'get_options() not at defaults afterwards', ''])
+                R.reset_options()
+            if R.registry_size():
+                bad.append([en, 'registry not empty', ''])
+                R.registry_clear()
+        return {'bad': bad, 'n': len(E)}
+    except Exception:
+        import traceback
+        return {'harness_error': traceback.format_exc()[-600:]}
+    finally:
+        R.reset_options()
+
+
+def _api_surface_sweep(ctx):
+    """every public entry point of FST / FSTView taking **options x every global option x its accepted non-default
+    values: `entry(..., k=v)` under library defaults == `entry(...)` inside `with FST.options(k=v)`"""
+    d = R.dom()
+    acc = {n: vs for n, vs, _ in tables()[False]}
+    jobs = []
+    for name in d.global_names:
+        c = d.name_code[name]
+        dft = d.enc(d.fo._GLOBAL_OPTIONS_W_DEFAULTS[name])
+        vals = [v for v in acc.get(c, []) if c20_domain._is_plain(d.values[v]) and v != dft]
+        for v in vals[:4 if ctx.quick else 8]:
+            jobs.append((name, v))
+    outs = pmap(_api_case, jobs, chunksize=1)
+    n = 0
+    for (name, v), o in zip(jobs, outs):
+        if 'harness_error' in o:
+            ctx.brk('correspondence', 'C20.api-surface', o['harness_error'])
+            break
+        n += o['n']
+        ctx.count(['api', name, v], True, n=o['n'])
+        for en, a, b in o['bad'][:3]:
+            ctx.fail(f'C20|call|per-call!=block-default|{en}|{name}',
+                     f'{en}(..., {name}={d.value_repr(v)}) under library defaults gives {a[:120]!r}; the same call without the '
+                     f'option inside `with FST.options({name}={d.value_repr(v)})` gives {b[:120]!r}',
+                     {'api': en, 'option': name, 'value': v})
+    ctx.notes['api_surface_comparisons'] = n
+    ctx.notes['api_entry_points'] = len(API.entries(d.FST))
+
+
 # ---- preemption inside library calls on state shared between trees (line objects after copy()) --------------------
 
 def _preempt_job(arg):
@@ -721,6 +786,7 @@ def _preempt_sweep(ctx):
 
 
 def correspondence(ctx):
+    _api_surface_sweep(ctx)
     _preempt_sweep(ctx)
     q = ctx.quick
     # (a)
@@ -1436,6 +1502,12 @@ def replay(ctx, data):
             o = _shield_case((fns, eids, w['call'], [w['defaults']]))
             for b in o.get('bad', []):
                 ctx.fail('replay', f'{b[0]}: defaults {_pretty(b[1])} call {_pretty(b[2])}: {b[3][:100]!r} vs alone {b[4][:100]!r}', w)
+        elif 'api' in w:
+            d = R.dom()
+            o = _api_case((w['option'], w['value']))
+            for en, a, b in o.get('bad', []):
+                if en == w['api']:
+                    ctx.fail('replay', f'{en}: per-call {a[:120]!r} vs block default {b[:120]!r}', w)
         elif 'thread_default' in w:
             what = w['what']
             eids = [R.EDIT_NAMES.index(what)] if what in R.EDIT_NAMES else []
